@@ -30,7 +30,7 @@ ASSUMPTIONS = [
 
 # arguments whose equally named attribute has other semantics, or that are consumed (not stored) by the constructor
 SKIP_ARGS = {
-    ("Annotation", "parent"), ("Annotation", "text_or_element"), ("Paragraph", "text_or_element"), ("Paragraph", "formatted"),
+    ("Annotation", "parent"), ("Paragraph", "text_or_element"), ("Paragraph", "formatted"),
     ("ListItem", "text_or_element"), ("List", "list_content"), ("Span", "formatted"), ("Header", "formatted"),
     ("UserDefined", "from_document"), ("Style", "area"), ("AnnotationEnd", "annotation"), ("Cell", "text"), ("Cell", "cell_type"),
     ("Cell", "currency"), ("Row", "width"), ("RowGroup", "height"), ("RowGroup", "width"), ("Table", "width"), ("Table", "height"),
@@ -42,6 +42,7 @@ SKIP_ARGS = {
 }
 # argument -> how to observe it when no equally named property exists
 OBSERVE = {
+    ("Annotation", "text_or_element"): lambda e: e.note_body,
     ("Frame", "position"): lambda e: e.position,
     ("Frame", "size"): lambda e: e.size,
     ("Link", "text"): lambda e: e.text,
@@ -64,6 +65,9 @@ TEXTS = ["abc", "N_1", "a b", "é<&>", "x'y", "Standard", "id9"]
 def arg_strategy(cls_name, pname, ann, default):
     a = str(ann)
     p = pname
+    if p == "text_or_element" or (cls_name == "Note" and p == "body"):
+        # documented as "str or element": both shapes
+        return st.sampled_from(["plain body", "$element:paragraph"])
     if p in ("cell_type", "value_type", "currency", "formula"):
         return None  # typed-value plumbing: only valid combinations make sense (exercised by C06)
     if p == "xml_id":
@@ -133,6 +137,8 @@ def arg_strategy(cls_name, pname, ann, default):
 def same(supplied, observed):
     if observed is None:
         return False
+    if hasattr(supplied, "serialize"):  # an element given as body: its text must be there
+        return "elem body" in str(observed)
     if isinstance(supplied, bool):
         return observed is supplied or observed == ("true" if supplied else "false")
     if isinstance(supplied, (list, tuple)):
@@ -181,6 +187,11 @@ def prop_names(cls):
 def build(cls, kwargs):
     name = cls.__name__
     kw = dict(kwargs)
+    for k_, v_ in list(kw.items()):
+        if v_ == "$element:paragraph":
+            from odfdo import Paragraph
+
+            kw[k_] = Paragraph("elem body")
     if name == "Style" and "family" not in kw:
         kw["family"] = "paragraph"
     if name == "Table" and "name" not in kw:
